@@ -3,6 +3,7 @@ CONSTANTS
   MaxLen = 4
   BlankStops = FALSE
   EndEmptyRaises = FALSE
+  GluedKeepsWater = FALSE
   DropWaterChoices = {FALSE, TRUE}
   Emit = FALSE
 INVARIANT AllIngested
